@@ -48,10 +48,10 @@ def handle (toks : List String) : Option String :=
       let rows := w.map (fun k => ({ key := k, inp := 0, seq := 0 } : Row))
       s!"ok {runLength rows { key := b, inp := 0, seq := 0 } mx}"
     | _, _, _ => "bad-op"
-  | ["merge.segments", ins] => some <|
+  | ["merge.segments", nf, ins] => some <|
     match parseLists? parseOptInt? ins with
     | some ins =>
-      let segs := segmentsOf ins
+      let segs := segmentsOf true (nf == "1") ins
       let showSeg (seg : List (Nat × Nat)) : String := s!"{seg.length}:{(seg.map (·.2)).sum}"
       s!"ok {showList showSeg segs}"
     | none => "bad-op"
